@@ -33,10 +33,11 @@ structure St where
   ticks      : Nat                    -- ghost: total number of counter advances (never reduced mod M)
   late       : Bool                   -- ghost: a pending id was registered after more than M counter advances
   collisions : Nat                    -- ghost: `put` calls that overwrote a live entry
+  openIds    : List Nat               -- ghost: ids of the Channel objects that are open (registered, not yet closed)
   deriving Repr
 
 def init (c : Nat) : St :=
-  { counter := c, live := [], pending := none, hung := false, ticks := c, late := false, collisions := 0 }
+  { counter := c, live := [], pending := none, hung := false, ticks := c, late := false, collisions := 0, openIds := [] }
 
 inductive Act where
   | openLocal            -- open_channel: _next_channel + put, one lock region
@@ -44,6 +45,10 @@ inductive Act where
   | peerPut              -- _parse_channel_open, second lock region: put
   | peerReject           -- _parse_channel_open: the server callback refused; the id is dropped
   | delete (id : Nat)    -- ChannelMap.delete / weak reference died
+  | peerFailure (id : Nat) (pending : Bool)
+                         -- _parse_channel_open_failure naming `id`; `pending` = our open of `id` is still waiting
+                         -- (`id in self.channel_events`): only then is the entry removed (the channel never opened)
+  | peerSuccess (id : Nat)   -- _parse_channel_open_success naming `id`: no effect on the map, whatever `id` is
   deriving Repr
 
 def isLive (s : St) (i : Nat) : Bool := s.live.contains i
@@ -52,8 +57,12 @@ def isLive (s : St) (i : Nat) : Bool := s.live.contains i
 def advance (counter id : Nat) : Nat := (id + M - counter % M) % M + 1
 
 def put (s : St) (id : Nat) : St :=
-  if s.live.contains id then { s with collisions := s.collisions + 1 }
-  else { s with live := id :: s.live }
+  if s.live.contains id then { s with collisions := s.collisions + 1, openIds := id :: s.openIds }
+  else { s with live := id :: s.live, openIds := id :: s.openIds }
+
+/-- the entry is removed and the Channel object it named is closed / gone -/
+def remove (s : St) (id : Nat) : St :=
+  { s with live := s.live.erase id, openIds := s.openIds.filter (fun x => x != id) }
 
 def step (s : St) : Act → St
   | .openLocal =>
@@ -75,7 +84,9 @@ def step (s : St) : Act → St
     | some (p, tp) =>
       put { s with pending := none, late := s.late || decide (s.ticks - tp > M) } p
   | .peerReject => { s with pending := none }
-  | .delete id => { s with live := s.live.erase id }
+  | .delete id => remove s id
+  | .peerFailure id pending => if pending then remove s id else s
+  | .peerSuccess _ => s
 
 def run (s : St) (h : List Act) : St := h.foldl step s
 
